@@ -18,7 +18,7 @@ def premise(blocks, variants):
     return True
 
 
-def _parents(R, window):
+def _parents(R, window, minus=False):
     from inscripta.biocantor.io.parser import seq_chunk_to_parent
     from inscripta.biocantor.parent import Parent, SequenceType
     from inscripta.biocantor.sequence import Sequence
@@ -26,7 +26,7 @@ def _parents(R, window):
 
     if window is None:
         return Parent(id="chr", sequence=Sequence(R, Alphabet.NT_STRICT_UNKNOWN, id="chr", type=SequenceType.CHROMOSOME))
-    return seq_chunk_to_parent(R[window[0]:window[1]], "chr", window[0], window[1], alphabet=Alphabet.NT_STRICT_UNKNOWN)
+    return E.chunk_parent(R, window[0], window[1], minus=minus, alphabet=Alphabet.NT_STRICT_UNKNOWN)
 
 
 def _mk_variants(variants, parent):
@@ -67,6 +67,16 @@ def _events(args):
         R = "".join(rnd.choice("ACGT") for _ in range(G))
         Vj = [[s, e, list(a)] for (s, e, a) in variants]
         lj = [blocks, st]
+        if window is not None and rnd.random() < 0.06:
+            # a sequence chunk on the MINUS strand of the chromosome: the alternative sequence of the chunk is the edited
+            # window, read in the chunk's orientation (only this question is asked there; keyed known finding)
+            try:
+                mpar = _parents(R, window, minus=True)
+                mvis, mcoll = _mk_variants(variants, mpar)
+                ev.append(["altm", list(R), Vj, window[0], window[1],
+                           E.outcome(lambda: list(str(mcoll.alternative_genomic_sequence)))])
+            except Exception as ex:
+                ev.append(["altm", list(R), Vj, window[0], window[1], ["x", E.exc_name(ex)]])
         par = _parents(R, window)
         try:
             vis, coll = _mk_variants(variants, par)
@@ -187,6 +197,8 @@ def _vcf_events(seed):
 def _key(ev, clause):
     if clause == "collection-lift:sequential-shift":
         return "variants:sequential-shift"
+    if clause == "alternative-sequence:minus-strand-chunk":
+        return "variants:minus-strand-chunk"
     return None
 
 
